@@ -651,3 +651,67 @@ def pp_is_some(pat):
     while pat.get('k') in ('PRef', 'PDeref'):
         pat = pat['p']
     return pat.get('k') in ('PTS', 'PStruct') and (pat.get('def') or '').endswith('Option::Some')
+
+
+def diverges_always(n):
+    """every path through n ends in continue / break / return (structurally: the last statement does, or both branches of an if do)."""
+    k = n.get('k')
+    if k in ('Continue', 'Break', 'Ret'):
+        return True
+    if k in ('Semi', 'Expr', 'DropTemps', 'Paren'):
+        return diverges_always(n['e'])
+    if k == 'Block':
+        seq = list(n.get('stmts', [])) + ([n['e']] if 'e' in n else [])
+        return any(diverges_always(x) for x in seq)
+    if k == 'If':
+        return 'els' in n and diverges_always(n['then']) and diverges_always(n['els'])
+    if k == 'Match':
+        return bool(n['arms']) and all(diverges_always(a['body']) for a in n['arms'])
+    return False
+
+
+def some_guard_dominates(fn, g, site):
+    """g is an Option-valued call; True if `site` is reached only after g returned Some:
+    `g?` in front; `if g.is_none() { continue|return|break }` in front; `if g.is_some() { site }`; `if let Some(..) = g { site }`;
+    `let Some(..) = g else { diverge };` in front; `match g { Some(..) => site / None => diverge }`."""
+    pm = parents(fn)
+    par = pm.get(id(g))
+    while par is not None and par.get('k') in ('AddrOf', 'DropTemps', 'Paren'):
+        g, par = par, pm.get(id(par))
+    if par is None:
+        return False
+    if par.get('k') == 'Try':
+        return lexically_precedes_dominating(fn, g, site)
+    if par.get('k') == 'MCall' and par.get('recv') is g and par.get('m') in ('is_none', 'is_some') and not par['args']:
+        test, neg = par, par['m'] == 'is_none'
+        up = pm.get(id(test))
+        while up is not None and up.get('k') == 'Unary' and up.get('op') == 'Not':
+            neg = not neg
+            test, up = up, pm.get(id(up))
+        if up is not None and up.get('k') == 'If' and up.get('c') is test:
+            some_branch = up.get('els') if neg else up['then']
+            none_branch = up['then'] if neg else up.get('els')
+            if some_branch is not None and any(x is site for x in walk(some_branch)):
+                return True
+            if none_branch is not None and diverges_always(none_branch):
+                return lexically_precedes_dominating(fn, g, site)
+        return False
+    if par.get('k') == 'LetCond' and par.get('e') is g:
+        iff = pm.get(id(par))
+        pat = par['pat']
+        if iff is not None and iff.get('k') == 'If' and pat.get('k') == 'PTS' and (pat.get('def') or '').endswith('Option::Some'):
+            return any(x is site for x in walk(iff['then']))
+        return False
+    if par.get('k') == 'Let' and par.get('init') is g and par.get('els') is not None:
+        pat = par['pat']
+        if pat.get('k') == 'PTS' and (pat.get('def') or '').endswith('Option::Some') and diverges_always(par['els']):
+            return lexically_precedes_dominating(fn, g, site)
+        return False
+    if par.get('k') == 'Match' and par.get('e') is g:
+        somes = [a for a in par['arms'] if a['pat'].get('k') == 'PTS' and (a['pat'].get('def') or '').endswith('Option::Some')]
+        others = [a for a in par['arms'] if a not in somes]
+        if any(any(x is site for x in walk(a['body'])) for a in somes):
+            return True
+        if others and all(diverges_always(a['body']) for a in others):
+            return lexically_precedes_dominating(fn, g, site)
+    return False
